@@ -3,10 +3,11 @@
 nothing reported and no budget used; a failing processor does not affect the others."""
 import core
 from props import _exprlib as X
+from props import _c17prom as PROM
 from rig import Rig, MockFrame, RecMetric, run_traced
 
 ID = 'C17'
-EXTRACT = ['limiter', 'expr']
+EXTRACT = ['limiter', 'expr', 'c17prom']
 LEAN_TARGETS = ['DeepModel.Props.C17']
 AUDIT = 'DeepModel/Audit/C17.lean'
 DRIVER = 'DeepModel/Driver/C17.lean'
@@ -20,17 +21,27 @@ RULE = ('0-4 metric definitions (types COUNTER / GAUGE / HISTOGRAM / SUMMARY in 
         'each failing on a chosen set of attempts, x 1-4 hits with fire_count / fire_period and a per-hit condition '
         '(true / false / raising) through the real TriggerHandler.trace_call on frame-like mocks or REAL frames. '
         'Non-trivial: at least 2 calls expected, or no processor with a permitted hit, or a failing processor beside a '
-        'healthy one. Distinct = distinct canonical JSON of the case.')
+        'healthy one. Stream prom (every 5th case): 1-8 operations (counter / gauge / histogram / summary; 1-3 metric '
+        'identities, each with its own namespace / unit / help / 0-3 label names, label dicts in varying key order, values '
+        'multiples of 0.25, negative for gauges) on a fresh REAL PrometheusPlugin against the real prometheus_client, then a '
+        'scrape; every third prom case gets 1-3 edge operations (same key with another namespace / unit / help / label names, '
+        'same name with another type, negative counter step, reserved label names, empty name, _total / unit / _sum suffixes). '
+        'Distinct = distinct canonical JSON of the case.')
 TRUSTED = ['Python float / str on live values is the reference for values and label texts',
            'Model/Metric.lean models repr(float(x)) for ints (|n| < 10^16), bools, floats (by their repr) and decimal '
-           'text without exponent']
+           'text without exponent',
+           'Model/C17Prom.lean construct / childFor / applyOp / tsNames / buildFullName: a hand-written reading of '
+           'prometheus_client 0.26 (compared with the real library on every prom case)']
 ASSUMPTIONS = ['processor failures are Exception subclasses (a plugin raising a BaseException subclass is outside '
                'the statement)', 'metric expression values are ints, short decimals, bools, text, None or failing',
                '__float__ may raise any Exception (then the value is 1); a label value whose __str__ raises is compared '
                'with the model only (the statement does not say what the label then is)',
                'model float printing is CPython\'s for decimals of at most 15 significant digits and |exponent| <= 300; '
                'values beyond (2**53+1, 17-digit text, 1e400) are generated in the `boundary` stream and judged by the '
-               'oracle only']
+               'oracle only',
+               'prom stream: values are multiples of 0.25, label values are text, a gauge accumulates (both built-in '
+               'processors add); edge operations (refused by the client library, or sharing a cache key) are compared with '
+               'the model only']
 
 TYPES = ['COUNTER', 'GAUGE', 'HISTOGRAM', 'SUMMARY', 'COUNTER', 'GAUGE', 'counter', 'Gauge', 'hIsToGrAm', 'summary']
 BAD_TYPES = ['TIMER', '', 'METER', 'clear', 'name', 'COUNTERS', ' counter', 'UNSPECIFIED']
@@ -112,6 +123,9 @@ def gen(rng, tier):
     k = 0
     while True:
         k += 1
+        if k % 5 == 0:
+            yield PROM.gen_case(rng, k // 5)
+            continue
         c = gen_case(rng, bad_types=(k % 6 == 0))
         if k % 8 == 0 and c['defs']:
             # values across the boundary of the modelled float alphabet: judged by the oracle only
@@ -143,7 +157,7 @@ def corpus():
         dict(base, defs=[d1], procs=[{'fails': [], 'falsy': 'len'}], hits=[{'ts': 5, 'cond': t}, {'ts': 6, 'cond': t}]),
         dict(base, defs=[d1, d2], procs=[{'fails': [], 'falsy': 'bool'}, {'fails': [0], 'falsy': 'len'}], hits=[{'ts': 5, 'cond': t}]),
         dict(base, stream='badtype', defs=[dict(d1, type='TIMER'), d2], procs=[{'fails': []}], hits=[{'ts': 5, 'cond': t}]),
-    ]
+    ] + PROM.corpus()
 
 
 # --------------------------------------------------------------------------------------- implementation
@@ -208,6 +222,8 @@ def num(val):
 
 
 def run_impl(case):
+    if case['kind'] == 'prom':
+        return PROM.run_impl(case)
     from deep.api.tracepoint.trigger import build_trigger
     from deep.api.tracepoint.tracepoint_config import MetricDefinition, LabelExpression
     procs = [make_proc(i, p) for i, p in enumerate(case['procs'])]
@@ -352,6 +368,8 @@ def reference(case):
 
 
 def oracle(case, obs):
+    if case['kind'] == 'prom':
+        return PROM.oracle(case, obs)
     v = []
     for h in obs['hits']:
         if 'raised' in h:
@@ -384,6 +402,8 @@ def oracle(case, obs):
 
 
 def model_request(case, obs):
+    if case['kind'] == 'prom':
+        return PROM.model_request(case, obs)
     if obs.get('no_action') or any('raised' in h for h in obs['hits']):
         return None
     if case['stream'] == 'boundary':
@@ -428,6 +448,8 @@ def model_call(c, statics):
 
 
 def compare(case, obs, resp):
+    if case['kind'] == 'prom':
+        return PROM.compare(case, obs, resp)
     if 'error' in resp:
         return ['model error: ' + resp['error']]
     # static values travel through the model as opaque text: map them back to the canonical observed form
@@ -451,6 +473,8 @@ def compare(case, obs, resp):
 
 
 def label(case, obs):
+    if case['kind'] == 'prom':
+        return PROM.label(case, obs)
     n = sum(len(c) for h in obs['hits'] for c in h.get('calls', []))
     faulty = sum(1 for p in case['procs'] if p['fails'])
     return f"{case['stream']}/{case['via']}/procs{len(case['procs'])}/faulty{min(faulty, 2)}/" + \
@@ -458,6 +482,8 @@ def label(case, obs):
 
 
 def nontrivial(case, obs):
+    if case['kind'] == 'prom':
+        return PROM.nontrivial(case, obs)
     n = sum(len(c) for h in obs['hits'] for c in h.get('calls', []))
     if not case['procs']:
         return bool(case['defs'])
@@ -466,6 +492,9 @@ def nontrivial(case, obs):
 
 
 def shrink(case):
+    if case['kind'] == 'prom':
+        yield from PROM.shrink(case)
+        return
     for key in ('hits', 'defs', 'procs'):
         xs = case[key]
         for i in range(len(xs)):
